@@ -85,6 +85,13 @@ impl NodeHandle {
         }
         // Dispose children first since this node could be referenced in a cleanup.
         self.dispose_children();
+        // A cleanup may have created nodes (or registered further cleanups) in this very scope while
+        // it was being torn down. Nothing would own them once the node is gone: tear them down too.
+        while (self.1.nodes.borrow().get(self.0))
+            .is_some_and(|this| !this.children.is_empty() || !this.cleanups.is_empty())
+        {
+            self.dispose_children();
+        }
         let mut nodes = self.1.nodes.borrow_mut();
         // Release memory.
         if let Some(mut this) = nodes.remove(self.0) {
